@@ -1,13 +1,16 @@
 (* C13 — A panicking module is contained, attributed and does not disturb other modules.
    Statements only; same model and trace as Properties/C09.v (coq/Life/Model.v).  A callback
-   panic of module m (handle_message, at_sim_start, at_sim_end) is the record [IPanic m 0]
-   written just before the scripted panic!(); Harness::exec / catch (unwind.rs) are modelled
-   as: the rest of the callback and the yield are skipped, the module is deactivated, a
-   PanicError is recorded unless the stereotype catches.  Panics inside spawned tasks are caught
+   panic of module m (handle_message, at_sim_start, at_sim_end) is the record [IPanic m 0 c]
+   written just before the scripted panic!(), c being the module's on_panic_catch flag at that
+   moment; Harness::exec / catch (unwind.rs) are modelled as: the rest of the callback and the
+   yield are skipped, the module is deactivated, a PanicError is recorded unless the stereotype
+   catches.  The stereotype is read when the panic is caught (after the callback), not before the
+   callback: a callback may call set_stereotyp ([ASetCatch], record [ISetCatch m who b]) and
+   panic afterwards, and the new value decides ([stereotype_in_force] below).  Panics inside spawned tasks are caught
    by tokio and reported as JoinErrors by at_sim_end; they do not deactivate the module.
    Unwinding itself (that catch_unwind leaves tokio's and Rust's state intact) is not modelled. *)
 From Coq Require Import List NArith Bool.
-From DesVerif Require Import Life.Model Life.Base Life.Step Life.Trace Life.Frame Life.Inert Life.Events Life.Panic Life.Silent Life.Term.
+From DesVerif Require Import Life.Model Life.Base Life.Step Life.Trace Life.Frame Life.Inert Life.Events Life.Panic Life.Silent Life.Term Life.Stereo.
 Import ListNotations.
 Open Scope N_scope.
 
@@ -23,8 +26,9 @@ Proof. exact contained. Qed.
 Print Assumptions C13_contained.
 
 (* errors_exact: the PanicError entries of the error returned by the run are exactly the callback
-   panics of modules whose stereotype does not catch, one per panic, in the order of the panics
-   ([perrs], coq/Life/Panic.v); in particular the run returns Ok only if there is none *)
+   panics [IPanic m 0 false], i.e. those caught while the module's stereotype does not catch, one per
+   panic, in the order of the panics ([perrs], coq/Life/Panic.v); in particular the run returns Ok
+   only if there is none *)
 Theorem C13_errors_exact : forall sc,
   filter (fun e => negb (fst e)) (r_err (run_script sc)) = perrs sc (items (trace sc)).
 Proof. exact errors_exact. Qed.
@@ -34,6 +38,18 @@ Theorem C13_ok_only_if_no_uncaught_panic : forall sc,
   r_err (run_script sc) = [] -> perrs sc (items (trace sc)) = [].
 Proof. exact ok_only_if_no_uncaught_panic. Qed.
 Print Assumptions C13_ok_only_if_no_uncaught_panic.
+
+(* stereotype_in_force: the flag c of a panic record is the stereotype in force at that moment:
+   the value of the last set_stereotyp of that module before the panic ([force]: the last
+   [ISetCatch m _ b] record in the trace so far, in the panicking callback itself or any time
+   earlier, shutdown / restart notwithstanding), else the configured one.  With errors_exact: a
+   panic is reported iff the stereotype in force when it is caught does not catch.
+   (A runtime that samples the stereotype before the callback violates this: seeded change
+   stereotype_snapshot_before_callback.) *)
+Theorem C13_stereotype_in_force : forall sc m l1 who c l2,
+  items (trace sc) = l1 ++ IPanic m who c :: l2 -> c = force m (c_catch (cfg sc m)) l1.
+Proof. exact stereotype_in_force. Qed.
+Print Assumptions C13_stereotype_in_force.
 
 (* globals_released: after every start-up step and every dispatched event -- panicking ones
    included -- the module-context slot (MOD_CTX) is empty and the event buffer (BUF_CTX.events)
@@ -64,12 +80,13 @@ Proof. intros sc m. apply (others_as_if_silent sc m); apply run_terminates. Qed.
 Print Assumptions C13_others_as_if_silent.
 
 (* Non-vacuity.  Module 0 panics in handle_message at t = 2 (its task would have logged 7 at
-   t = 3); module 2 has the catching stereotype and panics in at_sim_start. *)
+   t = 3); module 2 starts with the non-catching stereotype, switches to the catching one in
+   at_sim_start and panics in that same callback. *)
 Definition px_m0 : modcfg := {| c_catch := false; c_stages := 1; c_bud := 5; c_start := [[]];
   c_msg := [[ALog 1; APanic; ALog 2]; [ALog 3]]; c_tasks := [[ASleep 3; ALog 7]]; c_end := [] |}.
 Definition px_m1 : modcfg := {| c_catch := false; c_stages := 1; c_bud := 5; c_start := [[]];
   c_msg := [[ALog 2]]; c_tasks := []; c_end := [] |}.
-Definition px_m2 : modcfg := {| c_catch := true; c_stages := 1; c_bud := 0; c_start := [[APanic]];
+Definition px_m2 : modcfg := {| c_catch := false; c_stages := 1; c_bud := 0; c_start := [[ASetCatch true; APanic]];
   c_msg := []; c_tasks := []; c_end := [] |}.
 Definition px : script :=
   {| s_mods := [px_m0; px_m1; px_m2];
@@ -78,13 +95,14 @@ Definition px : script :=
 Example C13_nonvacuous :
   let tr := trace px in
   (* the panicking event: the rest of the handler is skipped, the module is inactive afterwards *)
-  e_items (nth 4 tr (boot_rec px (init_world px))) = [ICall 0 (CbMsg 0) 2 true; ILog 0 0 1; IPanic 0 0; ISample 2 2] /\
+  e_items (nth 4 tr (boot_rec px (init_world px))) = [ICall 0 (CbMsg 0) 2 true; ILog 0 0 1; IPanic 0 0 false; ISample 2 2] /\
   dead_after 0 (firstn 5 tr) = true /\
   (* its task's wake-up and a further message produce nothing; module 1 is served as usual *)
   map (fun e => (e_kind e, e_items e)) (firstn 3 (skipn 5 tr)) =
     [(KLoop (EvWake 0), [ISample 3 2]); (KLoop (EvDeliver 0 1), [ISample 4 2]);
      (KLoop (EvDeliver 1 0), [ICall 1 (CbMsg 0) 4 true; ILog 1 0 2; ISample 4 2])] /\
-  (* only the non-catching module is reported *)
+  e_items (nth 2 tr (boot_rec px (init_world px))) = [ICall 2 (CbStart 0) 0 true; ISetCatch 2 0 true; IPanic 2 0 true] /\
+  (* only the module whose stereotype does not catch at the time of the panic is reported *)
   r_err (run_script px) = [(false, 0)] /\ perrs px (items tr) = [(false, 0)] /\
   (* module 1 sees the same in the run where module 0 falls silent instead (it is then reset and its task cancelled) *)
   others 0 (items (events_of tr)) = others 0 (items (events_of (trace (quieten 0 px)))) /\
